@@ -12,7 +12,7 @@ CHECK = {
              "tag table (definition, colour, converters, marks, referenced-by) unchanged; a success shows exactly the requested change and "
              "nothing else; the graph obtained by re-parsing all definitions has no dangling reference, no cycle, and the referenced "
              "indication mirrors it; deleting/renaming a referenced tag is refused; every call and a following Status() return within "
-             "15 s. Non-trivial: >=1 rejected and >=2 accepted calls and a reference between two tags existed; distinct = distinct histories."),
+             "15 s. Non-trivial: >=1 rejected and >=2 accepted calls and a reference between two tags existed; distinct = distinct histories. The periodic tag-event worker ticks every 5 ms in this build (derived rewrite of its interval), so it runs between the calls of every history."),
     "level_text": "generated call histories against an explicit atomicity and well-formedness oracle; crash and hang are first-class outcomes (process death / watchdog)",
     "level_note": "background jobs run freely (gates open); the tag table is read through a closure posted to the service loop; the 15 s watchdog is three orders of magnitude above a normal call",
     "assumptions": ["one UpdateTag operation per call, as the HTTP front end issues them"],
